@@ -1215,6 +1215,10 @@ func (fc *fctx) selectOp(sel *ast.SelectStmt, comm ast.Stmt, sts []*lfState) {
 			chans = append(chans, cm.Chan)
 		}
 	}
+	// the channel operands of all cases are evaluated on entry to the select: reads of guarded fields
+	for _, ch := range chans {
+		fc.evalExprs(ch, sts)
+	}
 	for _, s := range sts {
 		fc.blockingOp(s, "select", "select without default", sel.Pos(), chans...)
 	}
